@@ -128,6 +128,7 @@ pub fn run(ctx: &Ctx) -> Outcome {
     out.merge(crate::props::sockets::c08_leaks(ctx));
     // (4) a chatty peer after close: the connection still ends within the bound (solo)
     out.merge(chatty_peer(ctx));
+    out.merge(silent_peer(ctx));
     out.rule = "C08: fault plans on the closing packets by deviation bounding over 3-cycle runs under a connection limit of 1; abort points enumerated exhaustively; distinct_nontrivial = executions with distinct timed traces".into();
     out.assumptions.push("'bounded time' = 3 s configured inactivity timeout + 6.2 s RTO back-off sum + 1 s final chance + 1 s slack after the application let go".into());
     out.assumptions.push("connection-object lifetime and the connection-table size are read through the verif hooks (H4/H5); the 3-cycle reconnect under max_live_vsocks=1 confirms slot release without hooks".into());
@@ -158,6 +159,11 @@ fn chatty_peer(ctx: &Ctx) -> Outcome {
     let mut seen = std::collections::HashSet::new();
     for (cname, close) in &closes {
         for (pname, pkt) in &chatter {
+            if *cname == "shutdown" && *pname == "data" {
+                // the read half is still held and the shutdown has not completed: new in-order data is
+                // legitimate traffic of a half-closed connection, the application has not let go
+                continue;
+            }
             for gap in [400u64, 900] {
                 let mut cfg = SoloCfg::tiny(10);
                 cfg.inactivity_ms = 3_000;
@@ -166,7 +172,7 @@ fn chatty_peer(ctx: &Ctx) -> Outcome {
                 // the release bound (11.2 s) worth of chatter and a bit more
                 let rounds = (13_000 / gap) as usize;
                 for _ in 0..rounds {
-                    actions.push(Act::Wait(gap));
+                    actions.push(Act::Sleep(gap));
                     actions.push(Act::Deliver(pkt.clone()));
                 }
                 let d = bfs::Driver { name: format!("chatty-{cname}-{pname}-{gap}ms"), cfg: cfg.clone(), prefix: vec![], alphabet: actions.clone(), depth: 0, state_cap: 0 };
@@ -203,6 +209,9 @@ fn chatty_peer(ctx: &Ctx) -> Outcome {
                         Some(t) => t > lg + RELEASE_BOUND_US,
                         None => alive_at_end && last_t > lg + RELEASE_BOUND_US,
                     };
+                    if std::env::var("VERIF_CHATTY_DEBUG").is_ok() {
+                        eprintln!("chatty {} let_go={} end={:?} last={} alive={} steps={}", d.name, lg, end_t, last_t, alive_at_end, lo);
+                    }
                     if late {
                         out.violations.push(Violation {
                             property: "C08".into(),
@@ -218,12 +227,116 @@ fn chatty_peer(ctx: &Ctx) -> Outcome {
     }
     part.distinct_nontrivial = seen.len() as u64;
     part.distinct_outcomes = seen.len() as u64;
-    part.bound = "3 ways of letting go x 6 kinds of peer chatter x gaps {400 ms, 900 ms}, chatter continued for 13 s of virtual time".into();
+    part.bound = "3 ways of letting go x 6 kinds of peer chatter (new in-order data only once both halves are gone) x gaps {400 ms, 900 ms}; between packets the full gap passes with the connection polled at each of its timers; chatter continued for 13 s of virtual time".into();
     part.samples.push(json!({"close": "drop-both", "chatter": "dup-ack", "gap_ms": 400}));
     // de-duplicate violations by signature (keep the first)
     let mut sigs = std::collections::BTreeSet::new();
     out.violations.retain(|v| sigs.insert(v.signature.clone()));
     out.parts.push(part);
     let _ = ctx;
+    out
+}
+
+
+/// "Under any network behaviour" also covers a peer that closes its window and then vanishes: every
+/// sequence of <= d actions over {write more than the peer's window, drop either half, ACKs that
+/// advertise a zero / too small / open window, duplicate ACK, timer}, followed by 13 s of silence.
+/// If both halves are gone by then, the connection object must have ended within the release bound.
+fn silent_peer(ctx: &Ctx) -> Outcome {
+    use crate::solo::{bfs, world::*};
+    let mut out = Outcome::default();
+    let mut cfg = SoloCfg::tiny(10);
+    cfg.inactivity_ms = 3_000;
+    cfg.peer_wnd = 20;
+    cfg.peer_lens = vec![3];
+    let st = |ack, wnd| Act::Deliver(Pkt::State { ack, wnd, sack: SackSpec::None });
+    let alphabet = vec![
+        Act::Write(40),
+        Act::DropWriter,
+        Act::DropReader,
+        st(AckSpec::All, WndSpec::Bytes(0)),
+        st(AckSpec::All, WndSpec::Bytes(5)),
+        st(AckSpec::Plus(1), WndSpec::Bytes(0)),
+        st(AckSpec::Cur, WndSpec::Default),
+        Act::Tick,
+        Act::Sleep(13_000),
+    ];
+    let sleep_idx = (alphabet.len() - 1) as u8;
+    let depth = ctx.tier.pick(5, 6);
+    let d = bfs::Driver { name: "silent-peer-after-close".into(), cfg, prefix: vec![], alphabet: alphabet.clone(), depth: 0, state_cap: 0 };
+    // all histories of length <= depth over the non-sleep actions in which both halves get dropped
+    let n = sleep_idx as usize;
+    let mut hists: Vec<Vec<u8>> = vec![vec![]];
+    let mut frontier: Vec<Vec<u8>> = vec![vec![]];
+    for _ in 0..depth {
+        let mut next = vec![];
+        for h in &frontier {
+            for a in 0..n as u8 {
+                // each half is dropped at most once, one write at most twice
+                if (a == 1 || a == 2) && h.contains(&a) {
+                    continue;
+                }
+                if a == 0 && h.iter().filter(|x| **x == 0).count() >= 2 {
+                    continue;
+                }
+                let mut g = h.clone();
+                g.push(a);
+                next.push(g);
+            }
+        }
+        hists.extend(next.iter().cloned());
+        frontier = next;
+    }
+    let hists: Vec<Vec<u8>> = hists.into_iter().filter(|h| h.contains(&1) && h.contains(&2)).collect();
+    let results: Vec<Option<(Vec<u8>, u64, Option<(String, String)>)>> = hists
+        .par_iter()
+        .map(|h| {
+            let mut hist = h.clone();
+            hist.push(sleep_idx);
+            let (_, wm) = bfs::execute(&d, &hist, true)?;
+            let (w, _) = wm?;
+            let let_go_step = h.iter().rposition(|a| *a == 1 || *a == 2).unwrap();
+            let lg = w.trace.iter().find(|r| r.step == let_go_step + 1).map(|r| r.t_us).unwrap_or(0);
+            let end_t = w.trace.iter().find(|r| r.obs_after.is_none()).map(|r| r.t_us);
+            let last = w.trace.last().unwrap();
+            let late = match end_t {
+                Some(t) => t > lg + RELEASE_BOUND_US,
+                None => last.t_us > lg + RELEASE_BOUND_US,
+            };
+            let class = end_t.map(|t| (t.saturating_sub(lg)) / 500_000).unwrap_or(u64::MAX);
+            let finding = if late {
+                let ob = last.obs_after.as_ref();
+                let what = match ob {
+                    Some(o) if o.tx_segments > 0 => "queued-segment-and-no-timer",
+                    Some(o) if o.tx_ring_len > 0 => "uncut-bytes-behind-a-closed-window-and-no-timer",
+                    _ => "other",
+                };
+                Some((
+                    format!("termination/closed-connection-outlives-a-silent-peer:{what}"),
+                    format!("both halves were dropped at {lg} us; after 13 s of silence the connection object is {} (state {:?}, timers {:?}, tx_segments {:?}, ring bytes {:?})", if end_t.is_some() { "gone too late" } else { "still alive" }, ob.map(|o| o.state), ob.map(|o| o.timers), ob.map(|o| o.tx_segments), ob.map(|o| o.tx_ring_len)),
+                ))
+            } else {
+                None
+            };
+            Some((hist, class, finding))
+        })
+        .collect();
+    let mut part = Part::fe("solo:silent-peer-after-close");
+    let mut classes = std::collections::BTreeSet::new();
+    let mut sigs = std::collections::BTreeSet::new();
+    for r in results.into_iter().flatten() {
+        part.evaluations += 1;
+        classes.insert(r.1);
+        if let Some((sig, detail)) = r.2 {
+            if sigs.insert(sig.clone()) {
+                out.violations.push(Violation { property: "C08".into(), monitor: "termination".into(), signature: sig, detail: format!("[{} {:?}] {}", d.name, r.0, detail), replay: bfs::replay_json(&d, &r.0) });
+            }
+        }
+    }
+    part.distinct_nontrivial = classes.len() as u64;
+    part.distinct_outcomes = classes.len() as u64;
+    part.bound = format!("all sequences of <= {depth} actions over [write 40 B into a 20 B peer window, drop writer, drop reader, ACK-all wnd 0, ACK-all wnd 5, ACK+1 wnd 0, duplicate ACK, timer] that drop both halves, each followed by 13 s without any packet from the peer; outcome classes = time from letting go to the end of the connection in 0.5 s buckets");
+    part.samples.push(json!({"history": [0, 7, 1, 2, 3, 8]}));
+    out.parts.push(part);
     out
 }
